@@ -621,9 +621,17 @@ func (ex *Exec) assumeWF(s *State, c Term, t types.Type) {
 	case SStr:
 		s.assume(BVUle(StrLen(c), BVLit(1<<40, 64)))
 	case SRef:
+		if t != nil {
+			if _, isFn := t.Underlying().(*types.Signature); isFn {
+				// function values: top-level functions have negative identities
+				s.assume(IntLt(c, ex.allocFrontier(s)))
+				return
+			}
+		}
 		ex.assumeRefOK(s, c)
 	case SIface:
-		s.assume(And(IntLe(IntLit(0), IRef(c)), IntLt(IRef(c), ex.allocFrontier(s)), IntLe(IntLit(0), ITag(c)),
+		// payload refs may be negative (package-level sentinels, functions)
+		s.assume(And(IntLt(IRef(c), ex.allocFrontier(s)), IntLe(IntLit(0), ITag(c)),
 			BVUle(StrLen(IStr(c)), BVLit(1<<40, 64)),
 			Implies(Eq(ITag(c), IntLit(0)), Eq(c, TNilI))))
 	}
@@ -971,7 +979,8 @@ func (ex *Exec) evalValue(s *State, instr ssa.Instruction, v ssa.Value) Val {
 		return FuncV{Fn: fn, Bindings: b, Ref: ex.newRef(s)}
 	case *ssa.MakeChan:
 		r := ex.newRef(s)
-		s.Ghost[closedKey(r)] = TFalse
+		arr := s.heapCur("|Chan:closed|", SArray(SRef, SBool))
+		s.heapSet("|Chan:closed|", Store(arr, r, TFalse))
 		return Scalar{r}
 	case *ssa.Range:
 		return ex.doRange(s, in)
@@ -1579,6 +1588,10 @@ func (ex *Exec) initialState() *State {
 	}
 	for i, fv := range ex.fn.FreeVars {
 		fr.Regs[fv] = ex.freshVal(s, fv.Type(), fmt.Sprintf("fv%d_%s", i, fv.Name()))
+		// captured variables live in allocated cells: the cell pointer is never nil
+		if p, ok := fr.Regs[fv].(PtrV); ok {
+			s.assume(Not(Eq(p.Base, TNilR)))
+		}
 	}
 	// implicit precondition: pointer receivers are non-nil (checked at
 	// every static call site, see applyContract)
